@@ -65,10 +65,10 @@ ADDED = {
  "C08": " Also: scale programs, long string bodies with one special byte. Corruptions also joined with empty comment lines.",
  "C09": " Also: boundary literals, unusual runes in 26 lexical contexts, every byte and every rune after a backslash, float literals with every ordinary exponent, long string bodies, runs of error tokens, sequences of tricky lexemes.",
  "C10": " Also: four tree-independent span laws (token boundaries, one-token fields, statement extent, operators tile the pipeline). Leading text (byte order mark, non-ASCII blanks, controls, white space) moves every span by its length; the program directly after failing parses of its parts and padded copies of itself (violations that need earlier inputs are replayed with them in a fresh process).",
- "C11": " Also: re-entrant walks at every node; scale programs; runs on one worker. Expression trees at 20 expression positions; a complete walk after a pruned walk of a fresh tree, for every prune point.",
- "C12": " Also: odd parameter snippets, odd tokens in diagnostics, implicit-name layouts, 27 nesting wrappers x 17 innermost operands. One rune of every Unicode class a scanner may consult, in 24 token shapes x 15 contexts.",
+ "C11": " Also: re-entrant walks at every node; scale programs; runs on one worker. Expression trees at 20 expression positions; a complete walk after a pruned walk of a fresh tree, for every prune point. A complete walk after a walk aborted by a recovered panic.",
+ "C12": " Also: odd parameter snippets, odd tokens in diagnostics, implicit-name layouts, 27 nesting wrappers x 17 innermost operands. One rune of every Unicode class a scanner may consult, in 24 token shapes x 15 contexts. Flat families with one diagnostic per unit; 12 s per call on 2 KiB inputs in the quick tier.",
  "C13": " Also: reassigned output names, idiom wrappers, references to later bindings, large arities, hexadecimal row counts. String literals with every escape at the start, middle and end of the body compile.",
- "C14": " Also: all schedules with at most 1 (2) departures from the default; all ordered pairs of calls over the grammar corpus; repeat determinism; goroutines started by the code under test are run as controlled threads (go, buffered channels, close, select-default, WaitGroup). Scenario S12: string literals that need escaping, compiled by two goroutines.",
+ "C14": " Also: all schedules with at most 1 (2) departures from the default; all ordered pairs of calls over the grammar corpus; repeat determinism; goroutines started by the code under test are run as controlled threads (go, buffered channels, close, select-default, WaitGroup). Scenario S12: string literals that need escaping, compiled by two goroutines. nil / zero value / empty map give identical results over the pair alphabet.",
  "C15": " Also: padded corpus, many-error sources, statement order and removed separators; a statement that parses alone must be reported even when others fail.",
  "C16": " Also: bulk scripts, long lines, padding before a let, every wide family as a session.",
 }
@@ -111,7 +111,7 @@ def main():
         ],
         "checks": checks,
         "not_applicable": na,
-        "notes": "All checks rebuild from /repo's working tree (go build with replace => /repo). Exit 0 = held, 1 = VIOLATION line, 2 = harness error (CHECK-ERROR). Genuine defects found are listed in /verif/known_findings.json: 15 fixed (fix: commits in /repo), 1 known (C05, an `as` name from the generated __subquery namespace; the check prints KNOWN-FINDING and exits 0). Seeded changes used to test the checks: /verif/seeded (256) and /verif/mutants; tools/seeds-regress.sh and mutants/run re-run them.",
+        "notes": "All checks rebuild from /repo's working tree (go build with replace => /repo). Exit 0 = held, 1 = VIOLATION line, 2 = harness error (CHECK-ERROR). Genuine defects found are listed in /verif/known_findings.json: 15 fixed (fix: commits in /repo), 1 known (C05, an `as` name from the generated __subquery namespace; the check prints KNOWN-FINDING and exits 0). Seeded changes used to test the checks: /verif/seeded (272) and /verif/mutants; tools/seeds-regress.sh and mutants/run re-run them.",
     }
     json.dump(m, open("/verif/MANIFEST.json", "w"), indent=1)
     open("/verif/MANIFEST.json", "a").write("\n")
